@@ -21,6 +21,12 @@ pub(crate) mod mvec;
 #[cfg(kani)]
 #[path = "../../weave/harness/support/mvec8.rs"]
 pub(crate) mod mvec8;
+#[cfg(kani)]
+#[path = "../../weave/harness/support/mdeque.rs"]
+pub(crate) mod mdeque;
+#[cfg(kani)]
+#[path = "../../weave/harness/support/vio_kani.rs"]
+pub(crate) mod vio;
 
 // under Kani `vec!` builds whichever `Vec` is in scope at the call site (the model Vec in the woven
 // files); textual macro scope takes precedence over the prelude macro
@@ -51,13 +57,25 @@ pub use self::inflight::SizedRequest;
 pub use self::topic::{TopicFilter, TopicFilterError, TopicFilterLevel};
 pub use self::types::QoS;
 
+// connection-state slice (Kani only: these files have no unit tests of their own that run without
+// the ntex runtime)
+#[cfg(kani)]
+#[path = "../../weave/src/payload.rs"]
+mod payload;
+
 pub mod v3 {
     #[path = "../../../weave/src/v3/codec/mod.rs"]
     pub mod codec;
+    #[cfg(kani)]
+    #[path = "../../../weave/src/v3/shared.rs"]
+    pub(crate) mod shared;
 }
 pub mod v5 {
     // the one item of the real v5/mod.rs that the codec refers to; extracted verbatim by weave
     include!("../../weave/gen_v5_consts.rs");
     #[path = "../../../weave/src/v5/codec/mod.rs"]
     pub mod codec;
+    #[cfg(kani)]
+    #[path = "../../../weave/src/v5/shared.rs"]
+    pub(crate) mod shared;
 }
